@@ -210,6 +210,19 @@ class CExprHarness(Harness):
             mk.assume(defined)
         return inp
 
+    def literal_ranges(self):
+        out = []
+        for i, s in sorted(self.lits):
+            lo, hi = lit_range(self.dm, s)
+            if i in self.shiftlits:
+                hi = min(hi, SHIFT_COUNT_MAX)
+            out.append((lo, hi))
+        return out
+
+    def premise(self, lv):
+        """premise of the template on plain integers"""
+        return bool(self.oracle(lv)[1])
+
     def oracle(self, lv):
         """-> (expected observation, defined, flags)"""
         dm, use, dest = self.dm, self.use, self.dest
@@ -418,6 +431,26 @@ def tractable(e):
     return txt.count("*") <= 1 and txt.count("<<") <= 1 and heavy <= 2 and not _grows_in_count(e)
 
 
+def has_defined_point(h, rnd, tries=300):
+    """shape filter for the sampled families: is there any literal assignment for which the premise of the
+    template holds?  (random search on plain integers through the reference semantics; a shape for which it
+    finds none - e.g. a shift by a constant-folded huge count - is skipped instead of reported as vacuous)"""
+    ranges = h.literal_ranges()
+    for _ in range(tries):
+        lv = []
+        for lo, hi in ranges:
+            f = rnd.random()
+            if f < 0.5:
+                lv.append(min(hi, rnd.choice([0, 1, 1, 2, 3, 5, 8, 17, 100])))
+            elif f < 0.6:
+                lv.append(hi - rnd.choice([0, 1]))
+            else:
+                lv.append(rnd.randint(lo, min(hi, 1 << rnd.randint(1, 64))))
+        if h.premise(lv):
+            return True
+    return False
+
+
 def depth2_templates(rnd, n, marches):
     T = []
     uses = ["global"] * 8 + ["array", "field", "static", "case", "enum"]
@@ -437,7 +470,10 @@ def depth2_templates(rnd, n, marches):
             e = ["cond", a, _rand_leaf(rnd, na), _rand_leaf(rnd, na + 1)]
         if not tractable(e):
             continue        # keep the bit-vector terms tractable / inside the engine width
-        T.append((rnd.choice(uses), rnd.choice(DESTS), e, rnd.choice(marches)))
+        spec = (rnd.choice(uses), rnd.choice(DESTS), csem.renumber(e), rnd.choice(marches))
+        if not has_defined_point(CExprHarness(*spec), rnd):
+            continue
+        T.append(spec)
     return T
 
 
